@@ -700,6 +700,9 @@ pub enum FT {
     Max(Vec<FT>),
     /// `r = m.float(lo/4, hi/4); m.array_float_element(idx, &kids, r)`
     Elem(usize, Vec<FT>, (i32, i32)),
+    /// product of a float term (one kid) and an integer variable or constant: `m.mul(f, n)` when
+    /// the flag is set (float operand first), `m.mul(n, f)` otherwise
+    MulI(Vec<FT>, Term, bool),
 }
 
 impl FT {
@@ -712,11 +715,15 @@ impl FT {
             FT::Min(_) => "m.array_float_minimum",
             FT::Max(_) => "m.array_float_maximum",
             FT::Elem(..) => "m.array_float_element",
+            FT::MulI(_, Term::K(_), true) => "m.mul(float,const)",
+            FT::MulI(_, Term::K(_), false) => "m.mul(const,float)",
+            FT::MulI(_, _, true) => "m.mul(float,int)",
+            FT::MulI(_, _, false) => "m.mul(int,float)",
         }
     }
     fn kids(&self) -> &[FT] {
         match self {
-            FT::Min(k) | FT::Max(k) | FT::Elem(_, k, _) => k,
+            FT::Min(k) | FT::Max(k) | FT::Elem(_, k, _) | FT::MulI(k, _, _) => k,
             _ => &[],
         }
     }
@@ -740,6 +747,8 @@ impl FT {
             FT::Min(k) => format!("m.array_float_minimum([{}])", ks(k)),
             FT::Max(k) => format!("m.array_float_maximum([{}])", ks(k)),
             FT::Elem(i, k, (lo, hi)) => format!("m.array_float_element(x{i},[{}],float({},{}))", ks(k), show_q(*lo), show_q(*hi)),
+            FT::MulI(k, t, true) => format!("m.mul({},{})", ks(k), t.show()),
+            FT::MulI(k, t, false) => format!("m.mul({},{})", t.show(), ks(k)),
         }
     }
     /// exact interval (in quarters) of the values the term can take under the integer assignment `a`;
@@ -769,6 +778,11 @@ impl FT {
                 let (l, h) = (l.max(*lo as i64), h.min(*hi as i64));
                 if l <= h { Some((l, h)) } else { None }
             }
+            FT::MulI(_, t, _) => {
+                let n = cell_val(t, a);
+                let (l, h) = ks[0];
+                Some(((l * n).min(h * n), (l * n).max(h * n)))
+            }
         }
     }
     /// bounds of the term's variable when it is created (what `floor/ceil/round` read)
@@ -780,6 +794,15 @@ impl FT {
             FT::Const(c) => (q4(*c), q4(*c)),
             FT::Min(_) => (ks.iter().map(|k| k.0).fold(f64::INFINITY, f64::min), ks.iter().map(|k| k.1).fold(f64::INFINITY, f64::min)),
             FT::Max(_) => (ks.iter().map(|k| k.0).fold(f64::NEG_INFINITY, f64::max), ks.iter().map(|k| k.1).fold(f64::NEG_INFINITY, f64::max)),
+            FT::MulI(_, t, _) => {
+                let (nl, nh) = match t {
+                    Term::V(x) => (*doms[*x].first().unwrap_or(&0) as f64, *doms[*x].last().unwrap_or(&0) as f64),
+                    Term::K(c) => (*c as f64, *c as f64),
+                    Term::F(_) => unreachable!(),
+                };
+                let c = [ks[0].0 * nl, ks[0].0 * nh, ks[0].1 * nl, ks[0].1 * nh];
+                (c.iter().copied().fold(f64::INFINITY, f64::min), c.iter().copied().fold(f64::NEG_INFINITY, f64::max))
+            }
         }
     }
     /// check the values of the float variables of a returned solution (creation order = post-order);
@@ -827,6 +850,14 @@ impl FT {
                 }
                 if !within(*lo, *hi) {
                     return bad("outside its declared bounds".into());
+                }
+            }
+            FT::MulI(_, t, _) => {
+                let n = cell_val(t, a) as f64;
+                let want = ks[0] * n;
+                // (the operand itself is only known up to its tolerance)
+                if (v - want).abs() > tol(v.abs().max(want.abs())) + n.abs() * tol(ks[0].abs()) {
+                    return bad(format!("but the operands are {:?} and {n}", ks[0]));
                 }
             }
         }
@@ -1518,6 +1549,13 @@ fn build_ft(b: &mut Built, f: &FT, rec: &mut Vec<VarId>) -> Result<VarId, String
             b.m.array_float_element(b.uv[*i], &ks, r);
             r
         }
+        FT::MulI(_, t, float_first) => match (t, *float_first) {
+            (Term::V(x), true) => b.m.mul(ks[0], b.uv[*x]),
+            (Term::V(x), false) => b.m.mul(b.uv[*x], ks[0]),
+            (Term::K(c), true) => b.m.mul(ks[0], Val::ValI(*c)),
+            (Term::K(c), false) => b.m.mul(Val::ValI(*c), ks[0]),
+            (Term::F(_), _) => unreachable!(),
+        },
     };
     rec.push(v);
     Ok(v)
@@ -2719,6 +2757,10 @@ fn check_call(out: &mut Out, line: usize, case: &Case, truth: &[Vec<i64>], c: &C
     if let Some(why) = sols.iter().find_map(|s| unsound(case, &c.funs, s, tg.q)) {
         let t = tg.tag(c, call);
         out.fail(line, "C01", &t, format!("{nm}: {why}"));
+        // (a model with float variables: the same failure is also C06's subject)
+        if t == "-" && case.cons.iter().any(|k| matches!(k, Con::Float { .. })) {
+            out.fail(line, "C06", &t, format!("{nm}: {why}"));
+        }
     }
     match (&c.res, call) {
         (Res::One(_), Call::Solve) => {
@@ -2731,6 +2773,12 @@ fn check_call(out: &mut Out, line: usize, case: &Case, truth: &[Vec<i64>], c: &C
             if sat {
                 let t = tg.tag(c, call);
                 out.fail(line, "C02", &t, format!("solve() is Err({e}) although {:?} is a solution ({} solutions)", truth[0], truth.len()));
+                // a model with float terms and no floor/ceil/round: its solutions sit at exactly
+                // representable points (quarters), every posted relation is an equality — C07's subject too
+                // (only when no recorded defect of the integer part explains the verdict)
+                if t == "-" && case.cons.iter().any(|k| matches!(k, Con::Float { .. })) && !case.cons.iter().any(|k| matches!(k, Con::Float { conv: Some(_), .. })) {
+                    out.fail(line, "C07", &t, format!("solve() is Err({e}) although {:?} is a solution ({} solutions)", truth[0], truth.len()));
+                }
             }
         }
         (Res::Many(v), Call::Enumerate) => {
@@ -3431,6 +3479,12 @@ impl<'a> Gen<'a> {
     }
     fn ft(&mut self, depth: u32, no_half: bool) -> FT {
         if depth > 0 && self.r.chance(2, 5) {
+            if !no_half && self.r.chance(1, 4) {
+                // (a product with an integer: quarters stay quarters; not under `round`, whose ties it could create)
+                let kid = self.ft(depth - 1, no_half);
+                let t = if self.r.chance(1, 2) { Term::V(self.var()) } else { Term::K(self.r.range(-3, 4) as i32) };
+                return FT::MulI(vec![kid], t, self.r.chance(1, 2));
+            }
             let n = self.r.range(1, 3);
             let kids: Vec<FT> = (0..n).map(|_| self.ft(depth - 1, no_half)).collect();
             return match self.r.below(3) {
